@@ -56,6 +56,13 @@ def cmpTrue (op : CmpOp) (lv rv : Option V) : Bool :=
   | some a, some b => pyCmp op a b == some true
   | _, _ => false
 
+/-- does a target key conform to a spec key?  `Optional(k)` compares with `==`; `conf` is the
+    conformance test of the key pattern -/
+def keyTest (conf : V → Bool) (kind : KeyKind) (ks : Spec) (key : V) : Bool :=
+  match optKey kind ks with
+  | some k => pyEq key k
+  | none => conf key
+
 def zipAll (f : Spec → V → Bool) : List Spec → List V → Bool
   | [], _ => true
   | _ :: _, [] => true
@@ -123,22 +130,16 @@ def confZip (ct : ClassTable) : List Spec → List V → Bool
 def confCases (ct : ClassTable) : List (Spec × Spec) → Option Arg → V → Bool
   | [], d, t => dfltOK d t
   | (k, v) :: rest, d, t => if conforms ct k t then conforms ct v t else confCases ct rest d t
-/-- does a target key conform to a spec key?  (`Optional(k)` compares with ==) -/
-def confKey (ct : ClassTable) : KeyKind → Spec → V → Bool
-  | kind, ks, key =>
-    match optKey kind ks with
-    | some k => pyEq key k
-    | none => conforms ct ks key
 /-- the first spec key (in spec order) the target key conforms to claims the entry -/
 def claimIdx (ct : ClassTable) : List (KeyKind × Spec × Spec) → Nat → V → Option Nat
   | [], _, _ => none
   | (kind, ks, _) :: es, i, key =>
-    if confKey ct kind ks key then some i else claimIdx ct es (i + 1) key
+    if keyTest (conforms ct ks) kind ks key then some i else claimIdx ct es (i + 1) key
 /-- … and the value must conform to that key's value pattern -/
 def confEntry (ct : ClassTable) : List (KeyKind × Spec × Spec) → V → V → Bool
   | [], _, _ => false
   | (kind, ks, vs) :: es, key, val =>
-    if confKey ct kind ks key then conforms ct vs val else confEntry ct es key val
+    if keyTest (conforms ct ks) kind ks key then conforms ct vs val else confEntry ct es key val
 end
 
 /- every `Optional(k, default=d)` in the pattern has a plain value as default (a T expression
